@@ -7,6 +7,7 @@
    widths / depths / delays / moduli / reset values. *)
 From V Require Import Base.Bits Gen.Seq Model.SeqBlocks Spec.C09.
 From V Require Import Proofs.C09.Reg Proofs.C09.Counters Proofs.C09.ModCounter Proofs.C09.Delay Proofs.C09.Mem Proofs.C09.Shift Proofs.C09.SpecSanity Proofs.C09.DualPort.
+From V Require Import Gen.WireOps Model.SimKernel Model.Trace Spec.C04 Spec.C05 Proofs.C09.Netlist Proofs.C09.NetlistDump.
 
 (* ---- Reg: from construction on and after every edge, q is the state of the reference machine (reset = 1 > enable <> 0 >
    hold) started at reset_value mod 2^w, for every width, reset value (also negative / oversized: stored unmasked, shown
@@ -213,6 +214,84 @@ Proof. exact autoreset_refines. Qed.
 Example C09_autoreset_nonvacuous : map (fun k => ar_out (iter k (ar_step 1) ar_init)) (seq 0 6) = [0; 1; 1; 0; 0; 0].
 Proof. vm_compute. reflexivity. Qed.
 
+(* ==== the kernel-level NETLISTS of Counter and TReg run by Model/SimKernel (poke; propagateAll; clk_cycle) compute the block
+   models of Model/SeqBlocks.v.  `counter_design w wr wi hi hr` / `treg_design wq wt we wr he hr` (Proofs/C09/Netlist.v) are
+   HAND-WRITTEN terms mirroring Counter.__init__ / TReg.__init__ in the shape py/netlist.py dumps a live object (leaves = the
+   REGENERATED Gen functions), for every width of q and of the port wires and every port configuration.
+   `*_net_run ... h` = power-up (all wires 0, Reg.__init__'s put on q, propagateAll) followed, per history entry, by the pokes of
+   the existing ports and Simulator.clk(1).  A poke stores the value masked to the port's width: `*_seen`.  NO guard on widths. *)
+Theorem C09_counter_netlist_refines : forall w wr wi (hi hr : bool) (h : list (Z * Z)),
+  let s := counter_net_run w wr wi hi hr h in
+  let c := run (counter_m w hi hr) cell_zero (map (counter_seen wr wi) h) in
+  rd (vals s) (counter_q hi hr) = cell_q c /\ sts s = [St_Reg (fst c)] /\ pend s = [].
+Proof. exact counter_netlist_refines. Qed.
+(* ... hence, with C09_counter_refines, the netlist's q wire follows the reference counter on the RAW poked history *)
+Theorem C09_counter_netlist_spec : forall w wr wi (hi hr : bool) (h : list (Z * Z)), 1 <= w -> 1 <= wr -> 1 <= wi ->
+  rd (vals (counter_net_run w wr wi hi hr h)) (counter_q hi hr) = run (counter_spec w hi hr) 0 h.
+Proof. exact counter_netlist_spec. Qed.
+(* the hypotheses of the general kernel theorems (C04 settling, C05 atomic edges / clk split) hold on this netlist, and every
+   valuation the run passes through is settled *)
+Theorem C09_counter_netlist_wellformed : forall w wr wi (hi hr : bool),
+  let D := counter_design w wr wi hi hr in
+  Spec.C05.topo (combs D) /\ ordered (combs D) /\ single_driver (combs D) /\ registered_once D /\ single_writer D /\ outs_nodup D.
+Proof. exact counter_design_wellformed. Qed.
+Theorem C09_counter_netlist_settled : forall w wr wi (hi hr : bool) (h : list (Z * Z)),
+  settled (counter_design w wr wi hi hr) (vals (counter_net_run w wr wi hi hr h)).
+Proof. exact counter_net_settled. Qed.
+(* one history entry is literally: pokes, propagateAll, one clk_cycle *)
+Theorem C09_counter_netlist_step_is_clk_cycle : forall w wr wi (hi hr : bool) s i,
+  let D := counter_design w wr wi hi hr in
+  let sp := fold_left (fun s p => poke D s (fst p) (snd p)) (counter_pokes hi hr i) s in
+  counter_net_step w wr wi hi hr s i =
+  clk_cycle D {| vals := propagateAll D (vals sp); pend := pend sp; sts := sts sp; total := total sp |}.
+Proof. exact counter_net_step_is_clk_cycle. Qed.
+(* per-run sanity: the hand-written 4-bit term under the kernel, all four port configurations, 2-bit reset / 3-bit inc wires *)
+Example C09_counter_netlist_runs :
+  let h := [(0, 1); (0, 1); (0, 5); (2, 0); (0, 1); (3, 1); (0, 1); (0, 4); (0, 7)] in
+  forallb (fun cfg : bool * bool => let '(hi, hr) := cfg in
+     list_eqb (map (fun k => rd (vals (counter_net_run 4 2 3 hi hr (firstn k h))) (counter_q hi hr)) (seq 0 10))
+              (map (fun k => cell_q (run (counter_m 4 hi hr) cell_zero (map (counter_seen 2 3) (firstn k h)))) (seq 0 10)))
+    [(true, true); (true, false); (false, true); (false, false)] = true /\
+  map (fun k => rd (vals (counter_net_run 4 2 3 true true (firstn k h))) (counter_q true true)) (seq 0 10) = [0; 1; 2; 3; 3; 4; 0; 1; 1; 2].
+Proof. vm_compute. auto. Qed.
+(* the hand-written term IS what py/netlist.py printed for live Counter objects (pasted dumps, Proofs/C09/NetlistDump.v) *)
+Example C09_counter_design_is_dump :
+  counter_design 4 1 1 true true = counter_dump_4_1_1_true_true /\ counter_design 4 1 1 true false = counter_dump_4_1_1_true_false /\
+  counter_design 4 1 1 false true = counter_dump_4_1_1_false_true /\ counter_design 4 1 1 false false = counter_dump_4_1_1_false_false /\
+  counter_design 1 1 1 true true = counter_dump_1_1_1_true_true /\ counter_design 7 2 3 true true = counter_dump_7_2_3_true_true.
+Proof. repeat split; reflexivity. Qed.
+
+Theorem C09_treg_netlist_refines : forall wq wt we wr (he hr : bool) (h : list (Z * Z * Z)),
+  let s := treg_net_run wq wt we wr he hr h in
+  let c := run (treg_m wq he hr) cell_zero (map (treg_seen wt we wr) h) in
+  rd (vals s) (treg_q he hr) = cell_q c /\ sts s = [St_Reg (fst c)] /\ pend s = [].
+Proof. exact treg_netlist_refines. Qed.
+(* with C09_treg_refines: the reference toggle machine on the values the port wires show (reset fires on masked value = 1) *)
+Theorem C09_treg_netlist_spec : forall wq wt we wr (he hr : bool) (h : list (Z * Z * Z)), 1 <= wq ->
+  rd (vals (treg_net_run wq wt we wr he hr h)) (treg_q he hr) = run (treg_spec he hr) 0 (map (treg_seen wt we wr) h).
+Proof. exact treg_netlist_spec. Qed.
+Theorem C09_treg_netlist_wellformed : forall wq wt we wr (he hr : bool),
+  let D := treg_design wq wt we wr he hr in
+  Spec.C05.topo (combs D) /\ ordered (combs D) /\ single_driver (combs D) /\ registered_once D /\ single_writer D /\ outs_nodup D.
+Proof. exact treg_design_wellformed. Qed.
+Theorem C09_treg_netlist_settled : forall wq wt we wr (he hr : bool) (h : list (Z * Z * Z)),
+  settled (treg_design wq wt we wr he hr) (vals (treg_net_run wq wt we wr he hr h)).
+Proof. exact treg_net_settled. Qed.
+Example C09_treg_netlist_runs :
+  let h := [(1, 1, 0); (1, 0, 0); (1, 1, 0); (0, 1, 0); (3, 1, 0); (1, 1, 1); (1, 1, 3); (1, 2, 0)] in
+  forallb (fun cfg : bool * bool => let '(he, hr) := cfg in
+     list_eqb (map (fun k => rd (vals (treg_net_run 1 2 2 2 he hr (firstn k h))) (treg_q he hr)) (seq 0 9))
+              (map (fun k => cell_q (run (treg_m 1 he hr) cell_zero (map (treg_seen 2 2 2) (firstn k h)))) (seq 0 9)))
+    [(true, true); (true, false); (false, true); (false, false)] = true /\
+  map (fun k => rd (vals (treg_net_run 1 2 2 2 true true (firstn k h))) (treg_q true true)) (seq 0 9) = [0; 1; 1; 0; 0; 1; 0; 1; 0].
+Proof. vm_compute. auto. Qed.
+Example C09_treg_design_is_dump :
+  treg_design 1 1 1 1 true true = treg_dump_1_1_1_1_true_true /\ treg_design 1 1 1 1 true false = treg_dump_1_1_1_1_true_false /\
+  treg_design 1 1 1 1 false true = treg_dump_1_1_1_1_false_true /\ treg_design 1 1 1 1 false false = treg_dump_1_1_1_1_false_false /\
+  treg_design 3 2 2 3 true true = treg_dump_3_2_2_3_true_true.
+Proof. repeat split; reflexivity. Qed.
+
+
 Print Assumptions C09_reg_refines.
 Print Assumptions C09_reg_value_refines.
 Print Assumptions C09_reg_powerup.
@@ -244,3 +323,12 @@ Print Assumptions C09_stack_spec_push_full.
 Print Assumptions C09_stack_spec_is_ideal.
 Print Assumptions C09_counter_spec_free.
 Print Assumptions C09_modcounter_spec_free.
+Print Assumptions C09_counter_netlist_refines.
+Print Assumptions C09_counter_netlist_spec.
+Print Assumptions C09_counter_netlist_wellformed.
+Print Assumptions C09_counter_netlist_settled.
+Print Assumptions C09_counter_netlist_step_is_clk_cycle.
+Print Assumptions C09_treg_netlist_refines.
+Print Assumptions C09_treg_netlist_spec.
+Print Assumptions C09_treg_netlist_wellformed.
+Print Assumptions C09_treg_netlist_settled.
